@@ -53,7 +53,6 @@ func pseudo(src, dst netip.Addr, proto uint8, l4len int) uint32 {
 type IP struct {
 	V6      bool
 	HBH     bool // v6: a hop-by-hop options header follows the fixed header
-	Ext     bool // v6: destination options / routing headers follow the fixed header
 	Src     netip.Addr
 	Dst     netip.Addr
 	Proto   uint8 // v6: next header of the fixed header
@@ -112,13 +111,8 @@ func ParseIP(b []byte) (IP, []byte, error) {
 		}
 		pl := b[40:end]
 		// a hop-by-hop options header is part of the IPv6 header as far as the transport is concerned
-		for (h.Proto == 60 || h.Proto == 43) && len(pl) >= 8 && (int(pl[1])+1)*8 <= len(pl) { // destination options / routing headers
-			n := (int(pl[1]) + 1) * 8
-			h.Proto = pl[0]
-			h.HdrLen += n
-			h.Ext = true
-			pl = pl[n:]
-		}
+		// (destination-options / routing headers are NOT looked behind: neither does the code under test today; a packet that
+		// carries them is "some other protocol" for the design's matcher as well)
 		if h.Proto == 0 && len(pl) >= 8 && (int(pl[1])+1)*8 <= len(pl) {
 			n := (int(pl[1]) + 1) * 8
 			h.Proto = pl[0]
